@@ -89,6 +89,9 @@ type Obligation struct {
 	Model  map[string]string
 	Raw    string
 	Query  string
+	// candidate counterexample from the quantifier-free weakening (unknown results only)
+	CandQuery  string
+	CandSolver string
 }
 
 type litInfo struct {
@@ -171,6 +174,7 @@ type Exec struct {
 	decisionPos int
 	curRun      *runInfo
 	curCExpr    *CExpr
+	seqApps     []seqApp
 }
 
 // decide returns the next decision of the current run; ok is false when the
@@ -788,6 +792,28 @@ func (x *Exec) assign(s *State, fr *Frame, n *ast.AssignStmt) {
 		}
 		x.writeLoc(s, fr, loc, lt, v)
 	}
+	x.afterAssign(s, fr, n)
+}
+
+// afterAssign applies the "on assign" ghost directives of the enclosing contract.
+func (x *Exec) afterAssign(s *State, fr *Frame, n *ast.AssignStmt) {
+	if fr.contract == nil || x.spec > 0 || len(fr.contract.OnAssign) == 0 {
+		return
+	}
+	c := fr.contract
+	for _, l := range n.Lhs {
+		text := exprText(x.w.Fset, l)
+		for _, oa := range c.OnAssign {
+			if oa.Dir.CallText != text {
+				continue
+			}
+			for _, g := range c.Ghost {
+				if g.Name == oa.Dir.Name {
+					x.setVar(s, fr, g.Var, x.specExpr(s, fr, oa.Expr))
+				}
+			}
+		}
+	}
 }
 
 func (x *Exec) ret(s *State, fr *Frame, n *ast.ReturnStmt) {
@@ -946,6 +972,9 @@ func (x *Exec) sentinel(t Term) {
 	nilE := x.ctx.Const("err$nil", SErr)
 	x.ctx.AddAxiom(key, []string{t.S}, Ne(t, nilE).S)
 	x.ctx.AddAxiom(key+":root", []string{t.S, "err$root"}, Eq(x.ctx.UF("err$root", SErr, t), t).S)
+	if !strings.HasPrefix(t.S, "err$io.") {
+		x.ctx.AddAxiom(key+":own", []string{t.S, "err$external"}, Not(x.ctx.UF("err$external", SBool, t)).S)
+	}
 	for k := range x.cbAxioms {
 		if strings.HasPrefix(k, "sentinel:") && k != key {
 			o := strings.TrimPrefix(k, "sentinel:")
